@@ -165,7 +165,7 @@ CHECKS = {
         specs='SuiteS.tla, Suite.tla, Trace_Suite.tla, Trace_SuiteCorpus.tla',
         text='S = one rewrite step per documented option with its side condition over a 45-symbol statement alphabet in 24 contexts (Allowed = closure, non-empty '
              'rule); M = the nine transformers as written, in pipeline order. TLC checks MOut in Allowed, off-means-untouched, non-emptiness and import order '
-             'for all blocks <= 2 (quick) / <= 3 (thorough) x relevant option subsets. Every enumerated case (quick ~16 000, thorough ~320 000; "uses __doc__" in five spellings; docstrings of functions and classes and the module-level zq are part of the observation) is concretised, '
+             'for all blocks <= 2 (quick) / <= 3 (thorough) x relevant option subsets. Every enumerated case of length 1 and a seeded sample of length 2 (quick ~16 000, thorough ~90 000 of 383 000; "uses __doc__" in five spellings; docstrings of functions and classes and the module-level zq are part of the observation) is concretised, '
              'minified by the real code with exactly those options, the output suite is classified back into the alphabet and TLC checks membership in '
              'Allowed plus equality of runs under optimize 0 and 1. Real modules: an eraser of the documented rewrites (harness/suitecanon.py), tied to S by checking it '
              'against Allowed() on every exported case, is applied to input and output of the pinned corpus under 15 option sets; Trace_SuiteCorpus.tla gives the verdicts.',
